@@ -645,7 +645,7 @@ cdef:
 
 cdef void _line_dist(
     int n_time, ndarray[NODE_t, ndim=1] hist,
-    ndarray[LAG_t, ndim=2] R, ndarray[DFIELD_t, ndim=2] E, float eps, int dim,
+    ndarray[LAG_t, ndim=2] R, ndarray[DFIELD_t, ndim=2] E, double eps, int dim,
     metric_type metric, bint black,
     ndarray[MASK_t, ndim=1, cast=True] M, bint missing_values,
     line_type_i2J i2J, line_type_ij2I ij2I, bint skip_main):
@@ -661,7 +661,7 @@ cdef void _line_dist(
 
     cdef:
         int i, I, j, k = 0, N = n_time
-        FIELD_t d
+        DFIELD_t d
         bint line, missing_flag = False
 
     if skip_main:
@@ -736,7 +736,7 @@ def _white_vertline_dist(
 
 def _vertline_dist_sequential(
         int n_time, ndarray[NODE_t, ndim=1] hist,
-        ndarray[DFIELD_t, ndim=2] E, float eps, int dim):
+        ndarray[DFIELD_t, ndim=2] E, double eps, int dim):
     cdef:
         ndarray[LAG_t, ndim=2] null_R = np.array([[]], dtype=LAG)
         ndarray[MASK_t, ndim=1] M_null = np.array([], dtype=MASK)
@@ -746,7 +746,7 @@ def _vertline_dist_sequential(
 
 def _diagline_dist_sequential(
         int n_time, ndarray[NODE_t, ndim=1] hist,
-        ndarray[DFIELD_t, ndim=2] E, float eps, int dim):
+        ndarray[DFIELD_t, ndim=2] E, double eps, int dim):
     cdef:
         ndarray[LAG_t, ndim=2] null_R = np.array([[]], dtype=LAG)
         ndarray[MASK_t, ndim=1] M_null = np.array([], dtype=MASK)
@@ -775,7 +775,7 @@ def _diagline_dist_missingvalues(
 def _vertline_dist_sequential_missingvalues(
         int n_time, ndarray[NODE_t, ndim=1] hist,
         ndarray[MASK_t, ndim=1, cast=True] M,
-        ndarray[DFIELD_t, ndim=2] E, float eps, int dim):
+        ndarray[DFIELD_t, ndim=2] E, double eps, int dim):
     cdef:
         ndarray[LAG_t, ndim=2] null_R = np.array([[]], dtype=LAG)
     _line_dist(
@@ -785,7 +785,7 @@ def _vertline_dist_sequential_missingvalues(
 def _diagline_dist_sequential_missingvalues(
         int n_time, ndarray[NODE_t, ndim=1] hist,
         ndarray[MASK_t, ndim=1, cast=True] M,
-        ndarray[DFIELD_t, ndim=2] E, float eps, int dim):
+        ndarray[DFIELD_t, ndim=2] E, double eps, int dim):
     cdef:
         ndarray[LAG_t, ndim=2] null_R = np.array([[]], dtype=LAG)
     _line_dist(
